@@ -8,6 +8,7 @@ import (
 	"fmt"
 	"os"
 	"regexp/syntax"
+	"sort"
 	"strconv"
 	"strings"
 	"sync"
@@ -156,6 +157,72 @@ func c25Run(line string) string {
 		if err == nil {
 			out += " argv=" + c25Argv(shell.VerifC25PTYArgv(s))
 			s.Close()
+			c25Exec.ReleaseSession()
+		}
+		return out
+	case "exec", "execp":
+		// everything request-controlled that reaches exec.Cmd: argv, the entries appended to the
+		// inherited environment, the working directory.   exec <pw> <cmd> <dir> <nenv> <k=v>... <args>...
+		nenv, _ := strconv.Atoi(f[4])
+		m := &shell.ShellMeta{Password: string(unhexTok(f[1])), Command: string(unhexTok(f[2])), WorkDir: string(unhexTok(f[3]))}
+		if nenv > 0 {
+			m.Env = map[string]string{}
+		}
+		for _, kv := range f[5 : 5+nenv] {
+			k, v, _ := strings.Cut(string(unhexTok(kv)), "=")
+			m.Env[k] = v
+		}
+		for _, a := range f[5+nenv:] {
+			m.Args = append(m.Args, string(unhexTok(a)))
+		}
+		inherited := len(os.Environ())
+		show := func(argv, env []string, dir string) string {
+			extra := []string{}
+			if len(env) >= inherited {
+				extra = env[inherited:]
+			} else if env != nil {
+				return " argv=" + c25Argv(argv) + " env=short dir=" + hexTok([]byte(dir))
+			}
+			inh := "inherit"
+			if env != nil {
+				inh = "copy"
+				for i, e := range os.Environ() {
+					if env[i] != e {
+						inh = "altered"
+					}
+				}
+			}
+			first := ""
+			if f[0] == "execp" && len(extra) > 0 { // TERM comes first, the request's entries follow in map order
+				first = hexTok([]byte(extra[0])) + ";"
+				extra = extra[1:]
+			}
+			sorted := append([]string(nil), extra...)
+			sort.Strings(sorted)
+			return " argv=" + c25Argv(argv) + " env=" + inh + ":" + first + c25Argv(sorted) + " dir=" + hexTok([]byte(dir))
+		}
+		if f[0] == "exec" {
+			sess, err := c25Exec.NewSession(context.Background(), m)
+			out := c25Classify(err, c25Exec.ActiveSessions())
+			if err == nil {
+				env, dir := shell.VerifC25SessionEnvDir(sess)
+				out += show(shell.VerifC25SessionArgv(sess), env, dir)
+				shell.VerifC25SessionDiscard(sess)
+				c25Exec.ReleaseSession()
+			}
+			return out
+		}
+		m.TTY = &shell.TTYSettings{Rows: 24, Cols: 80, Term: "vt100"}
+		ps, err := c25Exec.NewPTYSession(context.Background(), m)
+		if err != nil && strings.HasPrefix(err.Error(), "failed to start PTY") {
+			return fmt.Sprintf("ok %d unstarted", c25Exec.ActiveSessions()+1)
+		}
+		out := c25Classify(err, c25Exec.ActiveSessions())
+		if err == nil {
+			if env, dir, ok := shell.VerifC25PTYEnvDir(ps); ok {
+				out += show(shell.VerifC25PTYArgv(ps), env, dir)
+			}
+			ps.Close()
 			c25Exec.ReleaseSession()
 		}
 		return out
@@ -457,6 +524,43 @@ func c25Gen(w *bufio.Writer, seed int64, tier string) {
 			fmt.Fprintf(w, "%s - %s", op, hexTok([]byte(cmd)))
 			for _, a := range args {
 				fmt.Fprintf(w, " %s", hexTok([]byte(a)))
+			}
+			fmt.Fprintln(w)
+		}
+	}
+	// the rest of what reaches exec.Cmd: environment entries and working directory of the request
+	nexec := 40
+	if tier == "thorough" {
+		nexec = 2000
+	}
+	envs := []string{"LD_PRELOAD=/tmp/x.so", "PATH=/tmp", "A=1", "B=", "TERM=dumb", "IFS=;", "X=a=b", "BASH_ENV=/tmp/rc", "LANG=C"}
+	dirs := []string{"", "", "/tmp", "/", "relative/dir", "/nonexistent-verif", "..", "/tmp/a;b"}
+	for i := 0; i < nexec; i++ {
+		fmt.Fprintf(w, "reset 1 0 - 2 %s %s\n", hexTok([]byte("echo")), hexTok([]byte("ls")))
+		for j := 0; j < 3; j++ {
+			op, cmd := "exec", r.pickS("echo", "ls", "cat")
+			dir := dirs[r.intn(len(dirs))]
+			if r.chance(25) {
+				op, cmd = "execp", "echo"
+				dir = r.pickS("", "/tmp", "/") // the PTY variant starts the process
+			}
+			ne := r.pick(0, 0, 1, 2, 3)
+			seen := map[string]bool{}
+			var es []string
+			for len(es) < ne {
+				e := envs[r.intn(len(envs))]
+				k, _, _ := strings.Cut(e, "=")
+				if !seen[k] {
+					seen[k] = true
+					es = append(es, e)
+				}
+			}
+			fmt.Fprintf(w, "%s - %s %s %d", op, hexTok([]byte(cmd)), hexTok([]byte(dir)), len(es))
+			for _, e := range es {
+				fmt.Fprintf(w, " %s", hexTok([]byte(e)))
+			}
+			for a := r.pick(0, 1, 2); a > 0; a-- {
+				fmt.Fprintf(w, " %s", hexTok([]byte(r.pickS("hello", "-n", "x y", "/abs", "a;b"))))
 			}
 			fmt.Fprintln(w)
 		}
